@@ -149,7 +149,7 @@ func scribbleInts(xs ...*big.Int) {
 // salt 0 is the canonical set; every other salt gives identities this process has never used before, so that
 // "first use wins" caches are cold when the history starts.
 // historyCheapOps: properties whose operations are cheap enough for depth 3 with more than 12 operations.
-var historyCheapOps = map[string]bool{"C17": true, "C14": true, "C04": true, "C05": true}
+var historyCheapOps = map[string]bool{"C17": true, "C14": true, "C04": true, "C05": true, "C01": true, "C07": true, "C10": true, "C19": true, "C16": true}
 
 var historyOps = map[string]func(c *core.Ctx, salt int) []hOp{}
 
@@ -159,15 +159,27 @@ func historyPass(c *core.Ctx, id string) {
 	if !ok {
 		return
 	}
+	mk0 := mk
+	mk = func(c *core.Ctx, salt int) []hOp {
+		ops := mk0(c, salt)
+		if sw, ok := historySweeps[id]; ok && len(ops) > 0 {
+			ops = append(ops, sw(salt))
+		}
+		return ops
+	}
 	ops := mk(c, 0)
 	if len(ops) == 0 {
 		return
 	}
+	base := len(ops) // the depth rule counts the property's own operations, not the method sweep appended above
+	if _, ok := historySweeps[id]; ok {
+		base--
+	}
 	depth := 3
-	if len(ops) > 12 && !historyCheapOps[id] {
+	if base > 12 && !historyCheapOps[id] {
 		depth = 2
 	}
-	if c.Thorough() && len(ops) <= 10 {
+	if c.Thorough() && base <= 10 {
 		depth = 4
 	}
 	done := make(chan struct{})
